@@ -24,7 +24,7 @@ impl CommitterKey {
 //@struct file=poly-commit/src/ipa_pc/data_structures.rs name=Proof
 pub type VerifierKey = CommitterKey;
 //@use h2c
-//@spec h2c_spec scp_spec ipa_spec ipa_rest_spec
+//@spec h2c_spec scp_spec ipa_spec ipa_rest_spec pcf_spec ipa_msm_spec ipa_commit_spec
 // WHAT IS DROPPED: everything from `let h_prime = ..` on (the log(d) folding rounds over split_at_mut slices and the proof assembly) is cut and replaced by
 // one abstract call; this unit decides the combination loop, the hiding step, the first round challenge and the transcript schedule of the prover.
 #[verifier::external_body] pub fn vec_zero_fr(len: usize) -> (r: Vec<Fr>) ensures r@.len() == len, forall|i: int| 0 <= i < len ==> (#[trigger] r@[i])@ == f_zero() { unimplemented!() }
@@ -36,6 +36,7 @@ impl Poly {
     #[verifier::external_body] pub fn from_coeffs1(a: Fr) -> (r: Poly) ensures forall|x: FS| #[trigger] r.ev(x) == a@, r.coeffs@.len() <= 1 { unimplemented!() }                                    // from_coefficients_slice(&[a])
     #[verifier::external_body] pub fn add_assign_scaled(&mut self, q: (Fr, &Poly))
         ensures forall|x: FS| #[trigger] final(self).ev(x) == f_add(old(self).ev(x), f_mul(q.0@, q.1.ev(x))), final(self).wf(),
+                forall|t: int| #[trigger] pcf(final(self), t) == f_add(pcf(old(self), t), f_mul(q.0@, pcf(q.1, t))),     // `p += (c, &q)` is coefficient-wise (ark-poly)
                 final(self).coeffs@.len() <= (if old(self).coeffs@.len() >= q.1.coeffs@.len() { old(self).coeffs@.len() } else { q.1.coeffs@.len() }) { unimplemented!() }
 }
 // X^(D - d) p(X) as shift_polynomial returns it (D = supported degree)
@@ -52,6 +53,37 @@ pub open spec fn ipa_cr(lps: Seq<&LabeledPolynomial>, sts: Seq<&Randomness>, s: 
             let a = f_add(ipa_cr(lps, sts, s, j), f_mul(sp_chal(s, 2 * j), sts[j as int].rand@));
             if lps[j as int].degree_bound is Some { f_add(a, f_mul(sp_chal(s, 2 * j + 1), sts[j as int].shifted_rand->Some_0@)) } else { a }
         } else { ipa_cr(lps, sts, s, j) } }
+}
+// HYPOTHESIS of the completeness statements: commitment c and state st are what `commit` returns for p (implied by `ipa_commit_one`, units/ipa_commit.rs)
+pub open spec fn ipa_honest(ck: &CommitterKey, p: &LabeledPolynomial, c: &LabeledCommitment<Commitment>, st: &Randomness) -> bool {
+    let d = p.polynomial.degree_spec(); let n = ck.comm_key@.len();
+    c.degree_bound == p.degree_bound && (c.commitment.shifted_comm is Some) == (p.degree_bound is Some)
+    && (p.hiding_bound is None ==> st.rand@ == f_zero())
+    && c.commitment.comm@ == f_add(msm(ck.comm_key@.subrange(0, (d + 1) as int), p.polynomial.cv(), min((d + 1) as nat, p.polynomial.len())), f_mul(ck.s@, st.rand@))
+    && (p.degree_bound is Some ==> {
+        let w = ck.comm_key@.subrange(n - 1 - p.degree_bound->Some_0, n as int);
+        (p.hiding_bound is Some ==> st.shifted_rand is Some)
+        && c.commitment.shifted_comm->Some_0@ == f_add(msm(w, p.polynomial.cv(), min(w.len(), p.polynomial.len())),
+            if p.hiding_bound is Some { f_mul(ck.s@, st.shifted_rand->Some_0@) } else { f_zero() }) })
+}
+pub open spec fn ipa_all_honest(ck: &CommitterKey, lps: Seq<&LabeledPolynomial>, cs: Seq<&LabeledCommitment<Commitment>>, sts: Seq<&Randomness>) -> bool {
+    forall|j: int| 0 <= j < min3(lps.len(), cs.len(), sts.len()) ==> ipa_honest(ck, #[trigger] lps[j], cs[j], sts[j])
+}
+// what `open` returns for honest inputs: a0 is the coefficient vector of the (blinded) combined polynomial; the commitment the VERIFIER starts its rounds from
+// (ipa_comb with the proof's hiding_comm / rand) is <a0, G>, the claimed combined value is a0(z), and the rounds' relation holds for the verifier's first challenge
+pub open spec fn ipa_open_comb(ck: &CommitterKey, cs: Seq<&LabeledCommitment<Commitment>>, z: FS, v: FS, s: SS, n: nat, pr: &Proof) -> FS {
+    let c0 = ipa_acc_c(cs, s, n);
+    if pr.hiding_comm is Some {
+        let hc = ro_chal(Seq::<u8>::empty() + g1_ser_u(c0) + fr_ser_u(z) + fr_ser_u(v) + g1_ser_u(pr.hiding_comm->Some_0@));
+        f_add(c0, f_sub(f_mul(pr.hiding_comm->Some_0@, hc), f_mul(ck.s@, pr.rand->Some_0@)))
+    } else { c0 }
+}
+pub open spec fn ipa_open_wit(ck: &CommitterKey, lps: Seq<&LabeledPolynomial>, cs: Seq<&LabeledCommitment<Commitment>>, z: FS, s: SS, n: nat, pr: &Proof, a0: Seq<FS>) -> bool {
+    let nn = ck.comm_key@.len(); let v = ipa_cp(ck, lps, s, n, z); let comb = ipa_open_comb(ck, cs, z, v, s, n, pr);
+    a0.len() == nn && msm(ck.comm_key@, a0, nn) == comb && peval(a0, z, nn) == v && ipa_rest_rel(ck, a0, z, ipa_first(comb, z, v), pr)
+}
+pub open spec fn ipa_open_ok(ck: &CommitterKey, lps: Seq<&LabeledPolynomial>, cs: Seq<&LabeledCommitment<Commitment>>, sts: Seq<&Randomness>, z: FS, s: SS, pr: &Proof) -> bool {
+    exists|a0: Seq<FS>| #[trigger] ipa_open_wit(ck, lps, cs, z, s, min3(lps.len(), cs.len(), sts.len()), pr, a0)
 }
 pub open spec fn min3(a: nat, b: nat, c: nat) -> nat { min(a, min(b, c)) }
 pub struct InnerProductArgPC;
@@ -71,6 +103,8 @@ impl InnerProductArgPC {
     ensures
         // the prover squeezes exactly like the verifier (succinct_check): one challenge up front, two per polynomial
         res is Ok ==> final(sponge).st@ == sp_iter(old(sponge).st@, 1 + 2 * min3(labeled_polynomials@.len(), commitments@.len(), states@.len())),   // name=ipa.open.squeeze_schedule_matches_verifier props=C11,C07,C01
+        // COMPLETENESS, prover side: for honest commitments the proof satisfies the verifier's relation for the verifier's own starting commitment and challenges
+        (res is Ok && ipa_all_honest(ck, labeled_polynomials@, commitments@, states@)) ==> ipa_open_ok(ck, labeled_polynomials@, commitments@, states@, point@, old(sponge).st@, &res->Ok_0),   // name=ipa.open.honest_inputs_give_a_proof_the_verifier_accepts props=C01,C10
 //@body
 //@rw 1 /P::zero\(\)/ => Poly::zero()
 //@rw 1 /let polys_iter = labeled_polynomials\.into_iter\(\);/ => let polys_unused__ = 0usize;
@@ -80,7 +114,7 @@ impl InnerProductArgPC {
 //@rw 2 /combined_polynomial \+= \((cur_challenge), ([^;]*)\);/ => combined_polynomial.add_assign_scaled((\1, \2));
 //@rw 1 /commitment\.shifted_comm\.unwrap\(\)\.mul\(cur_challenge\)/ => commitment.shifted_comm.unwrap_abort().mul(cur_challenge)
 //@rw 1 /shifted_rand\.unwrap\(\)\)/ => shifted_rand.unwrap_abort())
-//@rw 1 /(?s)let h_prime = ck\.h\.mul\(round_challenge\)\.into_affine\(\);.*\}\)\s*\}\s*$/ => Self::ipa_open_rest(ck, &combined_polynomial, combined_rand, hiding_commitment, round_challenge, point, d, log_d) }
+//@rw 1 /(?s)let h_prime = ck\.h\.mul\(round_challenge\)\.into_affine\(\);.*\}\)\s*\}\s*$/ => let res__ = Self::ipa_open_rest(ck, &combined_polynomial, combined_rand, hiding_commitment, round_challenge, point, d, log_d); proof { if hon && res__ is Ok { let pr = res__->Ok_0; let key = ck.comm_key@; let nn = key.len(); let a0 = padz(combined_polynomial.cv(), nn); let n = min3(lps.len(), cs.len(), sts.len()); let v = combined_v@; assert(v == ipa_cp(ck, lps, s0, n, point@)); assert(ipa_open_comb(ck, cs, point@, v, s0, n, &pr) == combined_commitment@); lemma_peval_ext(combined_polynomial.cv(), a0, point@, combined_polynomial.len()); lemma_peval_trailing_zeros(a0, point@, combined_polynomial.len(), nn); assert(peval(a0, point@, nn) == v); assert(ipa_open_wit(ck, lps, cs, point@, s0, n, &pr, a0)); } } res__ }
 //@rw 1 /\bark_std::log2\(d \+ 1\) as usize/ => log2_ceil(d + 1) as usize
 //@rw 1 /let mut rng = rng\.expect\("[^"]*"\);/ => let rng = rng.unwrap_abort();
 //@rw 1 /P::rand\(d, &mut rng\)/ => Poly::rand(d, rng)
@@ -95,6 +129,7 @@ impl InnerProductArgPC {
 //@rw 1 /let mut combined_commitment;/ => let mut combined_commitment: G1Affine;
 //@after start
         let ghost s0 = sponge.st@; let ghost lps = labeled_polynomials@; let ghost cs = commitments@; let ghost sts = states@;
+        let ghost hon = ipa_all_honest(ck, lps, cs, sts);
 //@loop 1 kw=for name=it
             invariant it.index@ <= min3(lps.len(), cs.len(), sts.len()), lps == labeled_polynomials@, cs == commitments@, sts == states@, s0 == old(sponge).st@,
                 ck.comm_key@.len() >= 1, ck.comm_key@.len() < 0x4000_0000_0000_0000,
@@ -104,10 +139,51 @@ impl InnerProductArgPC {
                 forall|x: FS| #[trigger] combined_polynomial.ev(x) == ipa_cp(ck, lps, s0, it.index@ as nat, x),
                 combined_rand@ == ipa_cr(lps, sts, s0, it.index@ as nat),
                 combined_polynomial.wf(), combined_polynomial.coeffs@.len() <= ck.comm_key@.len(),
+                hon == ipa_all_honest(ck, lps, cs, sts), !has_hiding ==> combined_rand@ == f_zero(),
+                hon ==> f_add(pm(ck.comm_key@, &combined_polynomial), f_mul(ck.s@, combined_rand@)) == combined_commitment_proj@,
 //@after /let mut cur_challenge = sponge/
-        proof { reveal_with_fuel(sp_iter, 3); }
+        proof {
+            reveal_with_fuel(sp_iter, 3);
+            let key = ck.comm_key@; let zz = padz(combined_polynomial.cv(), key.len());
+            assert forall|i: int| 0 <= i < key.len() implies zz[i] == f_zero() by {}
+            lemma_dot_all_zero(g1views(key), zz, key.len()); lemma_mul_zero(ck.s@); ax_add_zero(f_zero());
+        }
 //@loopstart 1
             proof { reveal_with_fuel(sp_iter, 4); }
+            let ghost jj = it.index@; let ghost cp_a = combined_polynomial; let ghost cr_a = combined_rand@; let ghost cc_a = combined_commitment_proj@; let ghost xi0 = cur_challenge@;
+            let ghost mut sp_g: Poly = combined_polynomial;
+//@before /let has_degree_bound = degree_bound\.is_some\(\);/
+            let ghost cp_b = combined_polynomial; let ghost cr_b = combined_rand@; let ghost cc_b = combined_commitment_proj@; let ghost xi1 = cur_challenge@;
+            proof {
+                if hon {
+                    let key = ck.comm_key@; let p = polynomial; let st = sts[jj];
+                    assert(ipa_honest(ck, lps[jj], cs[jj], sts[jj]));
+                    assert(p.coeffs@.len() > 0 ==> p.coeffs@[p.coeffs@.len() - 1]@ != f_zero());
+                    if !p.is_zero_spec() { assert(p.degree_spec() + 1 == p.len()); }
+                    lemma_pm_prefix(key, p, (p.degree_spec() + 1) as nat);
+                    lemma_pm_lin(key, &cp_b, &cp_a, xi0, p);
+                    if hiding_bound is Some { lemma_acc_alg(pm(key, &cp_a), cr_a, pm(key, p), st.rand@, ck.s@, xi0); }
+                    else { lemma_acc_alg(pm(key, &cp_a), cr_a, pm(key, p), f_zero(), ck.s@, xi0); lemma_mul_zero(xi0); ax_add_zero(cr_a); }
+                    assert(f_add(pm(key, &cp_b), f_mul(ck.s@, cr_b)) == cc_b);
+                }
+            }
+//@after /let shifted_polynomial = Self::shift_polynomial\(ck, polynomial, degree_bound\);/
+                proof { sp_g = shifted_polynomial; }
+//@loopend 1
+            proof {
+                if hon {
+                    let key = ck.comm_key@; let p = polynomial; let st = sts[jj];
+                    if lps[jj].degree_bound is Some {
+                        let b = lps[jj].degree_bound->Some_0;
+                        if !p.is_zero_spec() { assert(p.degree_spec() + 1 == p.len()); }
+                        lemma_pm_shift(key, p, &sp_g, b as nat);
+                        lemma_pm_lin(key, &combined_polynomial, &cp_b, xi1, &sp_g);
+                        if hiding_bound is Some { lemma_acc_alg(pm(key, &cp_b), cr_b, pm(key, &sp_g), st.shifted_rand->Some_0@, ck.s@, xi1); }
+                        else { lemma_acc_alg(pm(key, &cp_b), cr_b, pm(key, &sp_g), f_zero(), ck.s@, xi1); lemma_mul_zero(xi1); ax_add_zero(cr_b); lemma_mul_zero(ck.s@); ax_add_zero(pm(key, &sp_g)); }
+                    }
+                    assert(f_add(pm(key, &combined_polynomial), f_mul(ck.s@, combined_rand@)) == combined_commitment_proj@);
+                }
+            }
 //@after /let combined_v = combined_polynomial\.evaluate\(point\);/
         proof {
             let n = min3(lps.len(), cs.len(), sts.len());
@@ -120,7 +196,7 @@ impl InnerProductArgPC {
 //@before /if has_hiding \{/ #1
         let ghost mut g_hch: FS = f_zero(); let ghost mut g_hcm: FS = f_zero(); let ghost mut g_cr: FS = f_zero();
 //@before /let mut hiding_polynomial = P::rand/
-            let ghost cp0 = combined_polynomial; let ghost c00 = combined_commitment_proj@;
+            let ghost cp0 = combined_polynomial; let ghost c00 = combined_commitment_proj@; let ghost cr0 = combined_rand@;
 //@before /end_timer!\(hiding_time\);/
             proof {
                 let v = combined_v@;
@@ -131,7 +207,18 @@ impl InnerProductArgPC {
                 assert(hv__@ == hp0.ev(point@));
                 lemma_sub_self(hv__@); lemma_mul_zero(g_hch); ax_add_zero(cp0.ev(point@));
                 assert(combined_polynomial.ev(point@) == v);                                              // ipa.open.hiding_polynomial_vanishes_at_the_point
+                if hon {
+                    // the blinded combined polynomial is what the corrected commitment C' commits to:  M(cp + hch hp) = C + hch hiding_comm - s rand'
+                    let key = ck.comm_key@;
+                    assert(key.subrange(0, key.len() as int) =~= key);
+                    lemma_pm_prefix(key, &hiding_polynomial, key.len());
+                    lemma_pm_lin(key, &combined_polynomial, &cp0, g_hch, &hiding_polynomial);
+                    lemma_hide_alg(pm(key, &cp0), cr0, pm(key, &hiding_polynomial), hiding_rand@, ck.s@, g_hch);
+                    assert(pm(key, &combined_polynomial) == combined_commitment_proj@);
+                }
             }
+//@before /let combined_rand = if has_hiding/
+        proof { if hon && !has_hiding { lemma_mul_zero(ck.s@); ax_add_zero(pm(ck.comm_key@, &combined_polynomial)); } assert(hon ==> pm(ck.comm_key@, &combined_polynomial) == combined_commitment_proj@); }
 //@before /let h_prime = ck\.h\.mul/
         proof {
             let n = min3(lps.len(), cs.len(), sts.len()); let c0 = ipa_acc_c(cs, s0, n); let v = combined_v@;
@@ -148,3 +235,85 @@ impl InnerProductArgPC {
         }
 //@end
 }
+
+// ---------------- completeness of the inner-product-argument scheme, over the contracts of open (both fragments) and check ----------------
+pub proof fn lemma_p2_is_pow2_(k: nat) ensures p2(k) == vstd::arithmetic::power2::pow2(k) decreases k
+{ vstd::arithmetic::power2::lemma2_to64(); if k > 0 { lemma_p2_is_pow2_((k - 1) as nat); vstd::arithmetic::power2::lemma_pow2_unfold(k); } }
+// with the honest values v_j = p_j(z) the verifier's combined value is the combined polynomial at z
+pub proof fn lemma_ipa_acc_v_is_cp(ck: &CommitterKey, lps: Seq<&LabeledPolynomial>, cs: Seq<&LabeledCommitment<Commitment>>, vs: Seq<Fr>, z: FS, s: SS, k: nat)
+    requires k <= lps.len(), k <= cs.len(), k <= vs.len(),
+        forall|j: int| 0 <= j < k ==> (#[trigger] cs[j]).degree_bound == lps[j].degree_bound && vs[j]@ == lps[j].polynomial.ev(z)
+            && (lps[j].degree_bound is Some ==> lps[j].degree_bound->Some_0 <= ck.comm_key@.len() - 1)
+    ensures ipa_acc_v(cs, vs, z, (ck.comm_key@.len() - 1) as nat, s, k) == ipa_cp(ck, lps, s, k, z)
+    decreases k
+{
+    if k > 0 {
+        let j = (k - 1) as nat; let ji = j as int;
+        lemma_ipa_acc_v_is_cp(ck, lps, cs, vs, z, s, j);
+        assert(cs[ji].degree_bound == lps[ji].degree_bound && vs[ji]@ == lps[ji].polynomial.ev(z));
+        if lps[ji].degree_bound is Some {
+            let b = lps[ji].degree_bound->Some_0; let p = lps[ji].polynomial; let x1 = sp_chal(s, 2 * j + 1); let v = vs[ji]@;
+            let e = f_pow(z, (ck.comm_key@.len() - 1 - b) as nat);
+            if p.is_zero_spec() {
+                assert forall|i: int| 0 <= i < p.cv().len() implies p.cv()[i] == f_zero() by { assert(p.coeffs@[i]@ == f_zero()); }
+                lemma_peval_zero(p.cv(), z, p.len());
+                lemma_mul_zero(x1); ax_mul_comm(f_zero(), e); lemma_mul_zero(e);
+            } else {
+                ax_mul_assoc(x1, v, e); ax_mul_comm(v, e);
+            }
+        }
+    }
+}
+// what `check` tests (its contract, units/ipa.rs: `Err` iff the round count is wrong, otherwise `Ok(relation && final key)`)
+pub open spec fn ipa_check_accepts(vk: &VerifierKey, cs: Seq<&LabeledCommitment<Commitment>>, vs: Seq<Fr>, z: Fr, pr: &Proof, s: SS) -> bool {
+    let n = min(cs.len(), vs.len());
+    pr.l_vec@.len() == pr.r_vec@.len() && is_ceil_log2(vk.comm_key@.len(), pr.l_vec@.len())
+    && ipa_relation(vk, cs, vs, z, pr, s, n)
+    && ipa_final_key(vk, ipa_u(vk, cs, vs, z, pr, s, n)) == pr.final_comm_key@
+}
+//@lemma props=C01,C10
+// COMPLETENESS: commitments as `commit` returns them (ipa_honest), the proof as `open` returns it (its postcondition ipa_open_ok), the claimed values the true
+// evaluations  ==>  `check` accepts.   Hypotheses that are not discharged here: none beyond the listed ones (the key is any key of power-of-two length).
+pub proof fn lemma_ipa_complete(ck: &CommitterKey, lps: Seq<&LabeledPolynomial>, cs: Seq<&LabeledCommitment<Commitment>>, sts: Seq<&Randomness>, vs: Seq<Fr>, z: Fr, s: SS, pr: &Proof)
+    requires
+        lps.len() == cs.len(), sts.len() == cs.len(), vs.len() == cs.len(), ck.comm_key@.len() >= 1,
+        ipa_all_honest(ck, lps, cs, sts),
+        forall|j: int| 0 <= j < lps.len() ==> (#[trigger] vs[j])@ == lps[j].polynomial.ev(z@) && (lps[j].degree_bound is Some ==> lps[j].degree_bound->Some_0 <= ck.comm_key@.len() - 1),
+        ipa_open_ok(ck, lps, cs, sts, z@, s, pr),
+    ensures
+        ipa_check_accepts(ck, cs, vs, z, pr, s)
+{
+    let n = cs.len(); let nn = ck.comm_key@.len(); let k = pr.l_vec@.len();
+    assert(min3(lps.len(), cs.len(), sts.len()) == n);
+    let a0 = choose|a0: Seq<FS>| #[trigger] ipa_open_wit(ck, lps, cs, z@, s, n, pr, a0);
+    assert(ipa_open_wit(ck, lps, cs, z@, s, n, pr, a0));
+    assert forall|j: int| 0 <= j < n implies (#[trigger] cs[j]).degree_bound == lps[j].degree_bound && vs[j]@ == lps[j].polynomial.ev(z@)
+        && (lps[j].degree_bound is Some ==> lps[j].degree_bound->Some_0 <= ck.comm_key@.len() - 1) by { assert(ipa_honest(ck, lps[j], cs[j], sts[j])); }
+    lemma_ipa_acc_v_is_cp(ck, lps, cs, vs, z@, s, n);
+    let v = ipa_cp(ck, lps, s, n, z@);
+    assert(ipa_acc_v(cs, vs, z@, (nn - 1) as nat, s, n) == v);
+    let comb = ipa_open_comb(ck, cs, z@, v, s, n, pr);
+    assert(ipa_comb(ck, cs, vs, z, pr, s, n) == comb);
+    let first = ipa_first(comb, z@, v); let hp = f_mul(ck.h@, first);
+    assert(ipa_rest_rel(ck, a0, z@, first, pr));
+    // round count
+    lemma_p2_is_pow2_(k);
+    if k >= 1 { lemma_p2_is_pow2_((k - 1) as nat); vstd::arithmetic::power2::lemma_pow2_unfold(k); vstd::arithmetic::power2::lemma_pow2_pos((k - 1) as nat); }
+    vstd::arithmetic::power2::lemma2_to64();
+    assert(is_ceil_log2(nn, k));
+    // relation
+    let u = ipa_rcs(first, pr.l_vec@, pr.r_vec@, k);
+    assert(ipa_u(ck, cs, vs, z, pr, s, n) == u);
+    let rhs = f_add(f_mul(pr.final_comm_key@, pr.c@), f_mul(hp, f_mul(scp_eval(u, z@, k), pr.c@)));
+    ax_add_comm(f_zero(), f_mul(pr.final_comm_key@, pr.c@)); ax_add_zero(f_mul(pr.final_comm_key@, pr.c@)); ax_add_zero(rhs);
+    lemma_sub_self(rhs);
+    assert(ipa_relation(ck, cs, vs, z, pr, s, n));
+    // final key
+    assert(scp_coeffs(u).len() == vstd::arithmetic::power2::pow2(u.len())) by { reveal(scp_coeffs); }
+}
+//@lemma props=C01
+// the hypothesis of the completeness lemma is what `commit` guarantees (its postcondition ipa_commit_one, units/ipa_commit.rs)
+pub proof fn lemma_ipa_commit_is_honest(ck: &CommitterKey, p: &LabeledPolynomial, c: &LabeledCommitment<Commitment>, st: &Randomness, id: int, pos: nat)
+    requires ipa_commit_one(ck, p, c, st, id, pos)
+    ensures ipa_honest(ck, p, c, st)
+{ }
